@@ -81,9 +81,7 @@ pub fn crypto_secretbox_open_detached(
     nonce: &Nonce,
     key: &Key,
 ) -> Result<(), Error> {
-    let c_len = ciphertext.len();
-    message[..c_len].copy_from_slice(ciphertext);
-    crypto_secretbox_open_detached_inplace(message, mac, nonce, key)
+    crypto_secretbox_open_detached_copy(message, mac, ciphertext, nonce, key)
 }
 
 /// Encrypts `message` with `nonce` and `key`.
